@@ -84,6 +84,7 @@ pub const FAMILIES: &[&str] = &[
     "hostile-long-label-run",
     "hostile-pointer-ladder-with-labels",
     "hostile-overlong-chain-soa",
+    "hostile-label-then-16-pointers-ladder",
 ];
 
 /// Families >= this index are expected to be rejected.
@@ -172,7 +173,7 @@ pub fn adversarial(rng: &mut Rng, fam: usize, target_len: usize) -> Vec<u8> {
             a.b[6..8].copy_from_slice(&n.to_be_bytes());
             a.done()
         }
-        8 | 9 | 10 | 11 => {
+        8 | 9 | 10 | 11 | 12 => {
             // a TXT record whose rdata hides: (8) a chain of k pointers each pointing at the previous one,
             // (9) a run of k one-byte labels, (10) k segments "label + pointer to the previous segment",
             // (11) like 8 but referenced from SOA records (two names each)
@@ -204,9 +205,24 @@ pub fn adversarial(rng: &mut Rng, fam: usize, target_len: usize) -> Vec<u8> {
                     }
                     a.ptr(rd);
                 }
-                _ => {
+                10 => {
                     let k = hidden / 4;
                     for _ in 0..k {
+                        let here = a.pos();
+                        a.label(&[*rng.pick(b"abcdefgh")]).ptr(head);
+                        head = here;
+                    }
+                }
+                _ => {
+                    // rungs of one label followed by 16 chained pointers: a budget that only limits
+                    // *consecutive* pointers never fires
+                    let rungs = (hidden / 36).min(126);
+                    for _ in 0..rungs {
+                        for _ in 0..15 {
+                            let here = a.pos();
+                            a.ptr(head);
+                            head = here;
+                        }
                         let here = a.pos();
                         a.label(&[*rng.pick(b"abcdefgh")]).ptr(head);
                         head = here;
